@@ -803,3 +803,43 @@ Definition chk_plan_L (c : lcase) : bool :=
 Definition chk_outcome_L (c : lcase) : bool := model_outside c || Nat.eqb (outcome_L (result_of c)) (lc_outcome c).
 Definition chk_planner_L (c : lcase) : bool :=
   chk_graph_L c && chk_data0 c && chk_lq c && chk_rcf c && chk_plan_L c && chk_outcome_L c.
+
+(* ---------- known-defect domains of a request, decided on the MODEL'S PLAN (harness/planner_l.classify) ---------- *)
+(* the LEFT table of the JoinStep is not (only) the table of the Link's left class *)
+Definition exchanged (g : fgraph) (links : list plink) (x : lstep) : bool :=
+  match x with
+  | LJOIN _ uid _ _ lus _ => negb (forallb (fun u => Nat.eqb (grp_of g u) (lfg_of links uid)) lus)
+  | _ => false
+  end.
+Definition is_join_step (x : lstep) : bool := match x with LJOIN _ _ _ _ _ _ => true | _ => false end.
+Definition is_tfs_step (x : lstep) : bool := match x with LTFS _ _ _ _ _ _ => true | _ => false end.
+Definition kf_none : nat := 0.
+Definition kf_right : nat := 1.               (* C05-right-join-not-honoured *)
+Definition kf_diffkeys_exchanged : nat := 2.  (* C05-different-key-names-consumer-on-right-framework *)
+Definition kf_left_flipped : nat := 3.        (* C05-left-join-roles-flipped-for-right-consumer *)
+Definition kf_multiway_cross : nat := 4.      (* C05-multiway-join-across-frameworks *)
+Definition kf_rejected : nat := 5.            (* prepare raises (outside C05's recorded domains) *)
+Definition kf_outside : nat := 6.             (* the model leaves its fragment *)
+Definition kf_code (g : fgraph) (links : list plink) (r : lresult) : nat :=
+  match links with
+  | [l] =>
+    match jt (pl_l l) with
+    | RIGHT => kf_right
+    | j =>
+      match r with
+      | LPlanned p =>
+        if existsb (exchanged g links) p && negb (idx_eqb (lidx (pl_l l)) (ridx (pl_l l))) then kf_diffkeys_exchanged
+        else if existsb (exchanged g links) p && jt_eqb j LEFT then kf_left_flipped
+        else kf_none
+      | LRejected _ _ => kf_rejected
+      | LOutside => kf_outside
+      end
+    end
+  | _ =>
+    match r with
+    | LPlanned p => if existsb is_tfs_step p then kf_multiway_cross else kf_none
+    | LRejected e _ => if Nat.eqb e e_incomplete then kf_multiway_cross else kf_rejected
+    | LOutside => kf_multiway_cross
+    end
+  end.
+Definition classify_case (c : lcase) : nat := kf_code (lc_g c) (lc_links c) (result_of c).
